@@ -169,6 +169,9 @@ pub fn seeds(seed: u64) -> Vec<Seed> {
         ..Default::default()
     };
     out.push(make_seed("builder-zip64", build(&spec).0));
+    // no entries, ZIP64 end records only
+    let spec = Spec { force_zip64_eocd: true, comment: b"c".to_vec(), ..Default::default() };
+    out.push(make_seed("builder-empty-zip64", build(&spec).0));
     // ZipCrypto written by the crate
     let enc = FOpts { password: Some(PW.to_vec()), ..FOpts::m(8) };
     let calls = vec![Call::StartFile { name: "e".into(), opts: enc }, Call::Write(b.clone()), Call::Finish];
@@ -227,6 +230,7 @@ fn put(bytes: &mut [u8], f: &Field, v: u64) {
 #[derive(Clone)]
 enum Family {
     Prefix { seed: usize },
+    Suffix { seed: usize },
     Subst { seed: usize },
     Single { seed: usize, fv: Arc<Vec<(usize, u64)>> },
     Pair { seed: usize, fv: Arc<Vec<(usize, u64)>> },
@@ -253,6 +257,7 @@ impl Space {
         let pair_seeds: Vec<usize> = by_len[..if thorough { 4 } else { 2 }].to_vec();
         for (si, s) in seeds.iter().enumerate() {
             push(Family::Prefix { seed: si }, s.bytes.len() as u64, &mut next);
+            push(Family::Suffix { seed: si }, s.bytes.len() as u64, &mut next);
             // quick: structural bytes of the first entry's headers + end records only
             push(Family::Subst { seed: si }, s.structural.len() as u64 * 255, &mut next);
             let mut fv = vec![];
@@ -279,6 +284,10 @@ impl Space {
             Family::Prefix { seed } => {
                 let s = &self.seeds[*seed];
                 (s.bytes[..k as usize].to_vec(), format!("{}: first {k} of {} bytes", s.label, s.bytes.len()), "prefix")
+            }
+            Family::Suffix { seed } => {
+                let s = &self.seeds[*seed];
+                (s.bytes[k as usize..].to_vec(), format!("{}: without its first {k} bytes", s.label), "suffix")
             }
             Family::Subst { seed } => {
                 let s = &self.seeds[*seed];
@@ -729,7 +738,7 @@ pub fn run(args: &Args) -> i32 {
     let space = Space::new(args.seed, thorough);
     ctx.rule = format!(
         "E-PROD over untrusted inputs derived from {} seed archives of {}..{} bytes (writer-made stored+deflate and ZipCrypto; builder-made tiny, AES AE-1/AE-2, forced ZIP64, data descriptor+zstd+bzip2, \
-         prefixed+comments+Info-ZIP ZipCrypto): (a) every prefix; (b) all 255 other values of every structural byte (everything but payload interiors); (c) every header field (EOCD, ZIP64 locator and end record, \
+         prefixed+comments+Info-ZIP ZipCrypto): (a) every prefix and every suffix; (b) all 255 other values of every structural byte (everything but payload interiors); (c) every header field (EOCD, ZIP64 locator and end record, \
          central and local headers, extra TLV ids/lengths, ZIP64 block values, AES block fields) set to every value of its boundary set — all single deviations on every seed and ALL PAIRS (bound 2) on the {} smallest seeds. \
          Each input runs the full API script (open, accessors, by_index / by_index_raw / by_index_decrypt / by_name(_decrypt) with budgeted reads, streaming loop with partial and full consumption, visitor, new_append+finish) \
          in a single-threaded worker subprocess with per-call catch_unwind, a 8 GiB single-allocation refusal and a hang watchdog. distinct_nontrivial = number of distinct inputs (ids of the enumeration; never repeated).",
@@ -741,7 +750,7 @@ pub fn run(args: &Args) -> i32 {
     ctx.assume("memory bound for opening: peak live heap <= 1024 x input length + 1 MiB (the crate's own guard allows one record per input byte; measured ratio is reported in counters)");
     ctx.uncovered("random multi-site mutations (sampling); inputs larger than the seeds; more than two simultaneous field deviations");
     ctx.bound("cases", json!(space.total));
-    ctx.bound("families", json!(space.fams.iter().map(|(f, _, n)| format!("{}:{n}", match f { Family::Prefix { seed } => format!("prefix/{}", space.seeds[*seed].label), Family::Subst { seed } => format!("subst/{}", space.seeds[*seed].label), Family::Single { seed, .. } => format!("single/{}", space.seeds[*seed].label), Family::Pair { seed, .. } => format!("pair/{}", space.seeds[*seed].label) })).collect::<Vec<_>>()));
+    ctx.bound("families", json!(space.fams.iter().map(|(f, _, n)| format!("{}:{n}", match f { Family::Prefix { seed } => format!("prefix/{}", space.seeds[*seed].label), Family::Suffix { seed } => format!("suffix/{}", space.seeds[*seed].label), Family::Subst { seed } => format!("subst/{}", space.seeds[*seed].label), Family::Single { seed, .. } => format!("single/{}", space.seeds[*seed].label), Family::Pair { seed, .. } => format!("pair/{}", space.seeds[*seed].label) })).collect::<Vec<_>>()));
 
     let scratch = crate::foreign::scratch_root().join(format!("zipmc-{}-c05", std::process::id()));
     let _ = std::fs::create_dir_all(&scratch);
@@ -768,18 +777,23 @@ pub fn run(args: &Args) -> i32 {
                                 deaths.push((u64::MAX, why));
                                 break;
                             }
-                            // confirm alone
-                            let (st1, died1) = supervise(args, &format!("one:{id}"), &scratch.join(format!("progress-one-{k}")), case_timeout);
-                            match died1 {
-                                Some((_, why1)) => deaths.push((id, format!("{why}; alone: {why1}"))),
-                                None => {
-                                    // not reproducible alone: machinery problem, keep its results and go on
-                                    all.merge(st1);
-                                    deaths.push((u64::MAX - 1, format!("worker died at case {id} ({why}) but the case alone completes")));
+                            // confirm alone (the first few per shard; later deaths of the same kind are taken as they come)
+                            if deaths.len() < 4 {
+                                let (st1, died1) = supervise(args, &format!("one:{id}"), &scratch.join(format!("progress-one-{k}")), case_timeout);
+                                match died1 {
+                                    Some((_, why1)) => deaths.push((id, format!("{why}; alone: {why1}"))),
+                                    None => {
+                                        // not reproducible alone: machinery problem, keep its results and go on
+                                        all.merge(st1);
+                                        deaths.push((u64::MAX - 1, format!("worker died at case {id} ({why}) but the case alone completes")));
+                                    }
                                 }
+                            } else {
+                                deaths.push((id, why));
                             }
                             start = id + 1;
-                            if deaths.len() > 200 {
+                            if deaths.len() > 20_000 {
+                                deaths.push((u64::MAX, "more than 20 000 worker deaths in one shard".into()));
                                 break;
                             }
                         }
@@ -800,6 +814,7 @@ pub fn run(args: &Args) -> i32 {
             } else {
                 let (bytes, desc, fam) = space.case(id);
                 let kind = if why.contains("no progress") { "hang" } else { "abort" };
+                ctx.stats.count("worker_deaths", 1);
                 ctx.stats.viol(
                     format!("{kind}/{fam}/{}", why.split(';').next().unwrap_or("").replace(char::is_numeric, "#")),
                     format!("process {kind} on input '{desc}': {why}"),
@@ -809,10 +824,11 @@ pub fn run(args: &Args) -> i32 {
             }
         }
     }
+    let died = ctx.stats.extra.get("worker_deaths").copied().unwrap_or(0);
     if ctx.stats.evals != space.total {
-        ctx.cap(format!("{} of {} cases completed (worker deaths skip the crashing case only)", ctx.stats.evals, space.total));
-        if ctx.stats.evals + 1000 < space.total {
-            ctx.machinery(format!("only {} of {} cases were executed", ctx.stats.evals, space.total));
+        ctx.cap(format!("{} of {} cases completed, {died} cases killed their worker (each is skipped after being attributed)", ctx.stats.evals, space.total));
+        if ctx.stats.evals + died + 16 < space.total {
+            ctx.machinery(format!("only {} of {} cases were executed and only {died} worker deaths explain the gap", ctx.stats.evals, space.total));
         }
     }
     ctx.stats.sample(json!({"id": 5, "what": space.case(5).1}));
